@@ -20,7 +20,7 @@ import subprocess
 import sys
 import time
 
-WT = '/tmp/seedv'
+WT = os.environ.get('SEEDV_WT', '/tmp/seedv')
 VERIF = '/verif'
 ENV = dict(os.environ, CHERAB_ROOT=WT, PYTHONPATH='/tmp/wtsite', OMP_NUM_THREADS='1', OPENBLAS_NUM_THREADS='1', MKL_NUM_THREADS='1')
 
@@ -103,7 +103,7 @@ def main():
                 meta['verdict'] = 'rejected: existing tests fail with the change: %s' % still
                 return finish(meta, sdir, sid, keep=False)
         # run the check against the patched tree
-        env = dict(os.environ, VERIF_REPO=WT, VERIF_EVIDENCE_DIR='/tmp/seedv_evidence')
+        env = dict(os.environ, VERIF_REPO=WT, VERIF_EVIDENCE_DIR=WT + '_evidence')
         rc, out = sh('./check %s --tier quick' % prop, cwd=VERIF, env=env)
         meta['check_exit'] = rc
         meta['check_reported'] = [l for l in out.splitlines() if re.search(r': C\d\d', l) and not l.startswith(('VIOLATION', 'KNOWN'))][:8]
